@@ -1,8 +1,91 @@
-(* drv_conc.ml -- model-side drivers of work package "conc" (see docs/AGENT_GUIDE.md) *)
+(* drv_conc.ml -- model-side driver "conc": run Model/Conc.v on an explicit schedule.
+   case:  conc <id> <start|plain> | <calls of task 0> | <calls of task 1> | ... sched <tid> <tid> ...
+   calls: W:<cmd>:<sid>:<hex>  D:<hex>  O  A  T  R  X  B0  B1  FAIL  F:sa:<owner>:<0|1>  F:psh:<owner>
+          F:fin:<owner>  F:alert  F:eof  F:err      ("-" = empty program)
+   In `start` mode the receive task (task 0) is free-running in the implementation (spawned by
+   start_client), so the driver grants it steps eagerly after every scheduled step. *)
 open Model
 open Util
 
+let parse_call (tok : string) : call =
+  match String.split_on_char ':' tok with
+  | ["W"; c; sid; d] ->
+    CWrite { fcmd = cmd_of_byte (n_of_int (int_of_string c)); fsid = n_of_int (int_of_string sid);
+             fdata = bytes_of_hex d }
+  | ["D"; d] -> CData (bytes_of_hex d)
+  | ["O"] -> COpen | ["A"] -> CAwait | ["T"] -> CTimeout | ["R"] -> CRead | ["X"] -> CClose
+  | ["B0"] -> CDisableBuf | ["B1"] -> CEnableBuf | ["FAIL"] -> CFail
+  | ["F"; "sa"; o; ok] -> CFeed (InSynAck (nat_of_int (int_of_string o), ok = "1"))
+  | ["F"; "psh"; o] -> CFeed (InPush (nat_of_int (int_of_string o)))
+  | ["F"; "fin"; o] -> CFeed (InFin (nat_of_int (int_of_string o)))
+  | ["F"; "alert"] -> CFeed InAlert | ["F"; "eof"] -> CFeed InEof | ["F"; "err"] -> CFeed InErr
+  | _ -> failwith ("bad call " ^ tok)
+
+let res_str = function
+  | ResOk -> "ok" | ResClosed -> "closed" | ResIo -> "io" | ResErrOpen -> "erropen" | ResTimeout -> "timeout"
+  | ResData -> "data" | ResEof -> "eof" | ResNoStream -> "nostream"
+
+let pc_str (s : state) (t : int) (x : task) =
+  match x.t_pc with
+  | PIdle ->
+    if t = 0 then (if s.ralive then "recv" else "done")
+    else (match x.t_prog with [] -> "done" | _ -> "h.call")
+  | PW0 _ -> "wf.enter" | PW1 _ -> "wf.buffering" | PW2 _ -> "wf.before_writer"
+  | PW2wait _ | PC2wait _ -> "queued"
+  | PW3 _ -> "wf.writer_locked" | PW4 _ -> "wf.buffer_taken" | PE0 _ -> "io_err.enter"
+  | PC1 _ -> "close.flag_set" | PC2 _ -> "close.before_writer" | PO1 _ -> "open.registered"
+
+let frame_tok (f : frame) =
+  let c = int_of_n (byte_of_cmd f.fcmd) in
+  if c = 4 then "SETTINGS" else Printf.sprintf "%d.%d.%s" c (int_of_n f.fsid) (hex_of_bytes f.fdata)
+
+let drv_conc args =
+  let mode, rest = (match args with m :: r -> m, r | [] -> failwith "mode") in
+  (* split at "sched" *)
+  let rec split_sched acc = function
+    | "sched" :: r -> (List.rev acc, r)
+    | x :: r -> split_sched (x :: acc) r
+    | [] -> (List.rev acc, []) in
+  let progtoks, sched = split_sched [] rest in
+  (* tasks separated by "|" ; the list starts with "|" *)
+  let rec split_tasks cur acc = function
+    | "|" :: r -> split_tasks [] (List.rev cur :: acc) r
+    | x :: r -> split_tasks (x :: cur) acc r
+    | [] -> List.rev (List.rev cur :: acc) in
+  let groups = (match split_tasks [] [] progtoks with _ :: g -> g | [] -> []) in
+  let progs = List.map (fun g -> List.filter_map (fun t -> if t = "-" then None else Some (parse_call t)) g) groups in
+  let ntasks = List.length progs in
+  let settings = { fcmd = Settings; fsid = N0; fdata = [] } in
+  let s0 = if mode = "start" then init progs true [ (nat_of_int 99, settings) ] else init progs false [] in
+  let free_recv s =
+    if mode <> "start" then s else begin
+      let s = ref s and go = ref true and fuel = ref 8 in
+      while !go && !fuel > 0 do
+        decr fuel;
+        (match (!s.tasks O).t_pc with
+         | PIdle -> go := false
+         | _ -> (match step !s O with Some s' -> s := s' | None -> go := false))
+      done; !s end in
+  let b = Buffer.create 256 in
+  let s = List.fold_left (fun s tok ->
+      let t = int_of_string tok in
+      match step s (nat_of_int t) with
+      | Some s' -> free_recv s'
+      | None -> Buffer.add_string b (Printf.sprintf "skip%d " t); s) s0 sched in
+  Buffer.add_string b "W ";
+  List.iter (fun (idx, items) ->
+      Buffer.add_string b (Printf.sprintf "%d:" (int_of_n idx));
+      Buffer.add_string b (String.concat "," (List.map (fun (_, f) -> frame_tok f) items));
+      Buffer.add_char b ' ') s.wire;
+  Buffer.add_string b (Printf.sprintf "| closed=%b shut=%b |" s.closed s.shut);
+  for t = 0 to ntasks - 1 do
+    let x = s.tasks (nat_of_int t) in
+    Buffer.add_string b (Printf.sprintf " t%d:%s:%s" t (if t = 0 && mode = "start" then "-" else pc_str s t x)
+                           (match x.t_res with [] -> "-" | l -> String.concat "," (List.map res_str l)))
+  done;
+  Buffer.contents b
+
 let dispatch (drv : string) (args : string list) : string option =
-  ignore args;
   match drv with
+  | "conc" -> Some (drv_conc args)
   | _ -> None
